@@ -44,7 +44,9 @@ def gen_case(rng, idx, quick=True):
         n = [65, 200, 130][idx % 3]
     # directed: dictionary-index pages holding a whole number of groups of 8 indices (or none), v1 and v2
     CATS = [("cat_str", 8, "none", 2), ("cat_int", 64, "none", 2), ("cat_str", 16, "all", 2), ("cat_str", 8, "none", 1),
-            ("cat_int", 9, "first", 2), ("cat_str", 64, "none", 1)]
+            ("cat_int", 9, "first", 2), ("cat_str", 64, "none", 1),
+            # 16-bit dictionary codes (more than 127 categories), with and without missing values, v1 and v2
+            ("cat_wide", 200, "some", 2), ("cat_wide", 130, "none", 2), ("cat_wide", 64, "some", 1), ("cat_wide", 9, "first", 2)]
     forced_version = None
     b1 = b0 + len(MULTI)
     if b1 <= idx < b1 + len(CATS):
@@ -78,7 +80,7 @@ def gen_case(rng, idx, quick=True):
     # has_nulls=False is only legal when no column that cannot express a missing value has one
     nullable_free = all(pats[k] == "none" or k in ("float32", "float64", "float_nan", "dt_ns", "dt_us", "dt_ms", "dt_s", "dt_tz", "td") for k in kinds)
     if hn == "list":
-        opts["has_nulls"] = [c for c in df.columns if c.split("_", 1)[-1] in ("str", "bytes", "Int64", "Int32", "UInt16", "boolean", "cat_str", "cat_int")
+        opts["has_nulls"] = [c for c in df.columns if c.split("_", 1)[-1] in ("str", "bytes", "Int64", "Int32", "UInt16", "boolean", "cat_str", "cat_int", "cat_wide")
                              or rng.random() < 0.5]
         if not nullable_free:
             opts["has_nulls"] = list(df.columns)
@@ -225,7 +227,7 @@ def expected_cells(series, kind, meta, nan_is_null):
             out.append(int(v) % (1 << 32))
         elif kind in ("int64", "uint64", "Int64", "cat_int"):
             out.append(int(v) % (1 << 64))
-        elif kind in ("str", "cat_str"):
+        elif kind in ("str", "cat_str", "cat_wide"):
             out.append("x" + v.encode("utf8").hex())
         elif kind == "bytes":
             out.append("x" + bytes(v).hex())
